@@ -24,6 +24,10 @@ Sq(v) == GMul(v, v)
 OneMinus(v) == GAdd(<<1, 0>>, <<0 - v[1], 0 - v[2]>>)
 Expected(t, v) ==
   CASE v.kind = "sum" -> AddT(EvalD(t.d), EvalD(v.other))
+    \* composites of a formal sum are formal sums again: (a + b) >> id, id(2) (x) (a + b), (a + b)^dagger
+    [] v.kind = "sum_then" -> AddT(EvalD(t.d), EvalD(v.other))
+    [] v.kind = "sum_tensor" -> Kron(IdT(<<2>>), AddT(EvalD(t.d), EvalD(v.other)))
+    [] v.kind = "sum_dagger" -> ConjT(AddT(EvalD(t.d), EvalD(v.other)))
     [] v.kind = "bubble_sq" -> MapT(EvalD(t.d), Sq)
     [] v.kind = "bubble_1m" -> MapT(EvalD(t.d), OneMinus)
     [] v.kind = "spider" -> SpiderT(v.n, v.m, v.dim)
@@ -40,7 +44,7 @@ J09(t) ==
        <<IF t.variants[v].exc # "" THEN "variant-raised"
          ELSE IF t.variants[v].kind = "interchange" THEN "evaluation-not-invariant-under-interchange"
          ELSE IF t.variants[v].kind = "normal_form" THEN "evaluation-not-invariant-under-normalisation"
-         ELSE IF t.variants[v].kind = "sum" THEN "sum-is-not-the-entrywise-sum"
+         ELSE IF t.variants[v].kind \in {"sum", "sum_then", "sum_tensor", "sum_dagger"} THEN "sum-is-not-the-entrywise-sum"
          ELSE IF t.variants[v].kind \in {"bubble_sq", "bubble_1m"} THEN "bubble-is-not-the-entrywise-image"
          ELSE IF t.variants[v].kind \in {"spider", "spider_fusion"} THEN "spider-is-not-its-delta-tensor"
          ELSE "tensor-diagram-eval-differs-from-functor", v>>
